@@ -328,11 +328,15 @@ fn msgs_in(s: &str) -> Vec<PubsubMessage> {
             let mut it = m.splitn(2, ';');
             let data = unhex(it.next().unwrap());
             let attributes = attrs_in(it.next().unwrap_or("-"));
+            // `message_id` and `publish_time` are output-only fields: a client may send anything in them (e.g. a
+            // relay republishing a received message verbatim) and the server must assign its own. A third of
+            // the messages (chosen by their payload) carry the id of the first message a topic issues.
+            let relay = data.iter().map(|b| *b as u32).sum::<u32>() % 3 == 0;
             PubsubMessage {
                 data,
                 attributes,
-                message_id: String::new(),
-                publish_time: None,
+                message_id: if relay { "8589934593".to_string() } else { String::new() },
+                publish_time: if relay { Some(prost_types::Timestamp { seconds: 1_000_000_000, nanos: 7 }) } else { None },
                 ordering_key: String::new(),
             }
         })
